@@ -40,3 +40,78 @@ Section Link.
 End Link.
 
 Print Assumptions gen_onstep_eq_model.
+
+(* ---------------------------------------------------------------------------------------------------------------------------
+   collect_rollout (on_policy.py), executed symbolically TOGETHER WITH the step and post_collect methods it calls: the key is split in
+   two, the step is scanned over jr.split(key0, num_steps) threading (callback state, environment state, policy state), the rows are
+   collected in order, and the bootstrap value handed to the GAE kernel (C03) is the policy's value of the observation of the FINAL
+   state under the post-collect key, with the learner's own gamma and lambda.  = OnPolicy.collect. *)
+Section Collect.
+  Context {S PS O CB : Type}.
+  Variables gamma lam : Q.
+  Variable E : env S Q O.
+  Variable P : acpol PS Q O.
+  Variable cb_step : CB -> bool -> Q -> kpath -> CB.
+
+  Definition row_tuple (r : @orow PS O) := (r_mask r, r_act r, r_done r, r_logp r, r_obs r, r_rew r, r_pstate r, r_val r).
+
+  Section Scan.
+    Variable F : CB * S * PS -> kpath -> (CB * S * PS) * (option (list bool) * Q * bool * Q * O * Q * PS * Q).
+    Hypothesis HF : forall c0 es ps k,
+      snd (fst (fst (F (c0, es, ps) k))) = fst (fst (op_step gamma E P (es, ps) k)) /\
+      snd (fst (F (c0, es, ps) k)) = snd (fst (op_step gamma E P (es, ps) k)) /\
+      snd (F (c0, es, ps) k) = row_tuple (snd (op_step gamma E P (es, ps) k)).
+
+    Lemma kfoldmap_scan_steps keys : forall c0 es ps,
+      let R := kfoldmap F (c0, es, ps) keys in
+      let M := scan_steps gamma E P (es, ps) keys in
+      (snd (fst (fst R)), snd (fst R)) = fst M /\ snd R = map row_tuple (snd M).
+    Proof.
+      induction keys as [|k keys IH]; intros c0 es ps; [split; reflexivity|].
+      cbn [kfoldmap scan_steps]. cbv zeta.
+      destruct (HF c0 es ps k) as (H1 & H2 & H3).
+      destruct (F (c0, es, ps) k) as [[[c0' es'] ps'] row] eqn:EF. cbn [fst snd] in *.
+      destruct (op_step gamma E P (es, ps) k) as [[es1 ps1] r1] eqn:EO. cbn [fst snd] in *. subst es' ps' row.
+      specialize (IH c0' es1 ps1). cbv zeta in IH.
+      destruct (scan_steps gamma E P (es1, ps1) keys) as [st2 rows] eqn:ES. cbn [fst snd] in *.
+      destruct IH as [IH1 IH2]. split; [exact IH1 | rewrite IH2; reflexivity].
+    Qed.
+  End Scan.
+
+  Variables (T : nat) (es : S) (ps : PS) (cbs : CB) (k : kpath).
+  Notation G f := (f S PS O CB gamma lam T E P cb_step es ps cbs k).
+
+  Theorem gen_collect_eq_model :
+    let M := collect gamma E P T (es, ps) k in
+    fst (fst M) = (G (@gen_collect_env_state), G (@gen_collect_policy_state)) /\
+    map r_obs (snd (fst M)) = G (@gen_collect_observations) /\ map r_act (snd (fst M)) = G (@gen_collect_actions) /\
+    map r_rew (snd (fst M)) = G (@gen_collect_rewards) /\ map r_done (snd (fst M)) = G (@gen_collect_dones) /\
+    map r_logp (snd (fst M)) = G (@gen_collect_log_probs) /\ map r_val (snd (fst M)) = G (@gen_collect_values) /\
+    map r_pstate (snd (fst M)) = G (@gen_collect_states) /\ map r_mask (snd (fst M)) = G (@gen_collect_action_masks) /\
+    snd M = G (@gen_collect_last_value) /\ G (@gen_collect_gae_gamma) = gamma /\ G (@gen_collect_gae_lambda) = lam.
+  Proof.
+    cbv zeta.
+    unfold gen_collect_env_state, gen_collect_policy_state, gen_collect_observations, gen_collect_actions, gen_collect_rewards,
+      gen_collect_dones, gen_collect_log_probs, gen_collect_values, gen_collect_states, gen_collect_action_masks,
+      gen_collect_last_value, gen_collect_gae_gamma, gen_collect_gae_lambda, collect.
+    rewrite !Nat2Z.id.
+    change (ksplit_keys (ks k 2 0) T) with (split_keys (ks k 2 0) T).
+    match goal with |- context [kfoldmap ?f _ _] => set (F := f) end.
+    assert (HF : forall c0 es0 ps0 k0,
+      snd (fst (fst (F (c0, es0, ps0) k0))) = fst (fst (op_step gamma E P (es0, ps0) k0)) /\
+      snd (fst (F (c0, es0, ps0) k0)) = snd (fst (op_step gamma E P (es0, ps0) k0)) /\
+      snd (F (c0, es0, ps0) k0) = row_tuple (snd (op_step gamma E P (es0, ps0) k0))).
+    { intros c0 es0 ps0 k0. subst F. unfold op_step, row_tuple. cbv beta iota.
+      destruct (p_act P ps0 (e_obs E es0 (ks k0 9 2)) (ks k0 9 0) (e_mask E es0 (ks k0 9 2))) as [[[ps1 a] v] lp].
+      cbn [fst snd r_obs r_act r_rew r_done r_logp r_val r_pstate r_mask].
+      unfold clip_action, sp_is_box, sp_lo, sp_hi. destruct (e_asp E); repeat split; reflexivity. }
+    pose proof (kfoldmap_scan_steps F HF (split_keys (ks k 2 0) T) cbs es ps) as HK. cbv zeta in HK.
+    destruct (scan_steps gamma E P (es, ps) (split_keys (ks k 2 0) T)) as [st1 rows] eqn:ES.
+    destruct (kfoldmap F (cbs, es, ps) (split_keys (ks k 2 0) T)) as [[[c0' es'] ps'] R] eqn:EK.
+    cbn [fst snd] in *. destruct HK as [HK1 HK2]. subst st1 R.
+    rewrite !map_map. cbn [fst snd]. unfold row_tuple.
+    repeat split; try reflexivity.
+  Qed.
+End Collect.
+
+Print Assumptions gen_collect_eq_model.
